@@ -52,7 +52,7 @@ def is_unitary_spec(spec):
     t = spec["t"]
     if t in ("F.Creation", "F.Annihilation"):
         return False
-    if spec.get("u") == "contr":
+    if spec.get("u") == "contr" or spec.get("form") == "tree":
         return False
     return True
 
@@ -61,6 +61,93 @@ def _herm(d, seed):
     rng = np.random.default_rng(seed)
     a = rng.standard_normal((d, d)) + 1j * rng.standard_normal((d, d))
     return ((a + a.conj().T) / 2).astype(R.C)
+
+
+def expr_tree(d, seed):
+    """A seeded random expression over d x d matrices in the interpreter's own language.
+    Returns (tree, leaves): leaves maps names to matrices; names starting with 'L' are literals that go
+    into the tree itself, the others are looked up in the context. Every command of the interpreter
+    appears, products have two to four non-commuting factors."""
+    rs = np.random.RandomState(int(seed) % (2**31))
+    leaves = {}
+
+    def leaf():
+        k = len(leaves)
+        name = ("L" if rs.rand() < 0.35 else "M") + str(k)
+        kind = rs.randint(3)
+        if kind == 0:
+            m = R.haar_unitary(d, int(seed) * 7 + k)
+        elif kind == 1:
+            m = _herm(d, int(seed) * 11 + k)
+        else:
+            m = R.random_contraction(d, int(seed) * 13 + k) + 0.5 * np.eye(d)
+        leaves[name] = np.asarray(m, dtype=R.C)
+        return name
+
+    def scalar():
+        c = rs.randint(4)
+        if c == 0:
+            return round(float(rs.uniform(0.3, 1.8)), 4)
+        if c == 1:
+            return int(rs.choice([2, 3, -1]))
+        if c == 2:
+            return complex(round(float(rs.uniform(-1, 1)), 3), round(float(rs.uniform(0.2, 1)), 3))
+        return round(float(-rs.uniform(0.3, 1.5)), 4)
+
+    def node(depth):
+        if depth == 0:
+            return leaf()
+        op = rs.choice(["m_mult", "m_mult", "m_mult", "add", "sub", "s_mult", "div", "expm"])
+        if op == "m_mult":
+            return ("m_mult",) + tuple(node(depth - 1) for _ in range(rs.choice([2, 3, 3, 4])))
+        if op == "add":
+            return ("add",) + tuple(node(depth - 1) for _ in range(rs.choice([2, 3])))
+        if op == "sub":
+            return ("sub", node(depth - 1), node(depth - 1))
+        if op == "s_mult":
+            args = [scalar() for _ in range(rs.choice([1, 2]))]
+            args.insert(rs.randint(len(args) + 1), node(depth - 1))
+            return ("s_mult",) + tuple(args)
+        if op == "div":
+            return ("div", node(depth - 1), scalar())
+        k = len(leaves)
+        leaves["M" + str(k)] = np.asarray(_herm(d, int(seed) * 17 + k), dtype=R.C)
+        return ("expm", ("s_mult", 1j, round(float(rs.uniform(-2, 2)), 4), "M" + str(k)))
+
+    return node(int(rs.choice([1, 2, 2, 3]))), leaves
+
+
+def eval_tree(tree, leaves):
+    from scipy.linalg import expm
+
+    if isinstance(tree, tuple):
+        op, *args = tree
+        v = [eval_tree(a, leaves) for a in args]
+        if op == "add":
+            out = v[0]
+            for x in v[1:]:
+                out = out + x
+            return out
+        if op == "sub":
+            return v[0] - v[1]
+        if op == "s_mult":
+            out = v[0]
+            for x in v[1:]:
+                out = out * x
+            return out
+        if op == "m_mult":
+            out = v[0]
+            for x in v[1:]:
+                out = out @ x
+            return out
+        if op == "div":
+            return v[0] / v[1]
+        if op == "expm":
+            return expm(v[0])
+        raise ValueError(op)
+    if isinstance(tree, str):
+        return leaves[tree]
+    return tree
 
 
 def custom_matrix(spec, d):
@@ -140,6 +227,9 @@ def ref_operator(spec, dims):
             return expm(1j * spec["theta"] * _herm(d, spec["seed"]))
         if f == "mmult":  # U1 @ U2
             return R.haar_unitary(d, spec["seed"]) @ R.haar_unitary(d, spec["seed"] + 1)
+        if f == "tree":
+            tree, leaves = expr_tree(d, spec["seed"])
+            return np.asarray(eval_tree(tree, leaves), dtype=R.C)
         raise ValueError(f)
     if t == "X.CX":
         return R.CX
@@ -283,6 +373,19 @@ def build_library_operation(spec, world=None):
             U2 = arr(R.haar_unitary(d, spec["seed"] + 1))
             ctx = {"U2": lambda dims: U2}
             expr = ("m_mult", U1, "U2")
+        elif f == "tree":
+            tree, leaves = expr_tree(d, spec["seed"])
+            arrs = {k: arr(v, as_np=(k.startswith("L") and as_np)) for k, v in leaves.items()}
+            ctx = {k: (lambda dims, a=a: a) for k, a in arrs.items() if not k.startswith("L")}
+
+            def subst(t_):
+                if isinstance(t_, tuple):
+                    return tuple(subst(x) for x in t_)
+                if isinstance(t_, str) and t_.startswith("L"):
+                    return arrs[t_]
+                return t_
+
+            expr = subst(tree)
         else:
             raise ValueError(f)
         return Operation(CustomStateOperationType.Expresion, expr=expr, context=ctx), user
@@ -473,6 +576,11 @@ def to_library_arrays(mats, arr="jnp"):
     if arr == "np":
         return [np.array(m, dtype=np.complex128) for m in mats]
     ms = [np.array(m, dtype=np.complex128) for m in mats]
+    if arr in ("mixed", "npmixed"):
+        # every operator in the dtype its entries need, as a hand-written list has it:
+        # [sqrt(1-p) I, sqrt(p/3) X, sqrt(p/3) Y, sqrt(p/3) Z] is float, float, complex, float
+        ms = [m.real.astype(np.float64) if np.all(m.imag == 0) else m for m in ms]
+        return ms if arr == "npmixed" else [jnp.asarray(m) for m in ms]
     if arr in ("real", "int", "npint") and all(np.all(m.imag == 0) for m in ms):
         # the dtype a user would naturally write: float for real sets, int for 0/1 matrices
         if arr != "real" and all(np.all(m.real == np.round(m.real)) for m in ms):
